@@ -279,8 +279,10 @@ def run_l2(ctx, rng, cov):
     probes = drive(ctx, "l2probe", base, "l2probe", par=24)
     info = {}
     for s, t in zip(base, probes):
-        if t["meta"]["ff_ret"] == "err" and not any(m["mode"] != "has" for m in s["mirrors"]):
-            raise vlib.ToolError("fault-free %s fails: the driver or simreg is broken" % s["op"])
+        # without mirrors and without faults every operation succeeds, else driver or simreg are broken (with
+        # mirrors a failure may be the code's: the probe traces are validated like all others)
+        if t["meta"]["ff_ret"] == "err" and not s["mirrors"]:
+            raise vlib.ToolError("fault-free %s fails without mirrors: the driver or simreg is broken" % s["op"])
         info[l2_key(s)] = (t["meta"]["ff_n"], t["meta"]["classes"])
     # 2. fault plans
     singles, doubles, persist = [], [], []
